@@ -228,7 +228,7 @@ def grid_ops(case):
             yield ["setitem", i, 99]
             yield ["pop", i]
             yield ["insert", i, 99]
-        for k in (-1, 0, 1, 2, 3):
+        for k in (-1, 0, 1, 2, 3, True, False, 0.5, 0.0, -1.0, 2.5, "5", None):
             yield ["imul", k]
         yield ["reverse"]
         yield ["sort", True]
@@ -335,7 +335,7 @@ OP = st.one_of(
     st.tuples(st.just("append"), ITEM),
     st.tuples(st.just("extend"), ITEMS),
     st.tuples(st.just("iadd"), ITEMS),
-    st.tuples(st.just("imul"), st.integers(-1, 3)),
+    st.tuples(st.just("imul"), st.one_of(st.integers(-1, 3), st.sampled_from([0.5, 0.0, -1.0, 2.5, "5", None, True, False]))),
     st.tuples(st.just("remove"), ITEM),
     st.tuples(st.just("reverse")),
     st.tuples(st.just("sort"), st.booleans()),
